@@ -287,6 +287,13 @@ func Note(name string)                 {}
 // MapOrderInsertion (intrinsic): iterate maps in insertion order only (reference runs).
 func MapOrderInsertion(on bool) {}
 
+// AtomicOps (intrinsic): number of sync/atomic pointer operations executed so far (-1 natively: unknown).
+func AtomicOps() int { return -1 }
+
+// FreezeGlobals (intrinsic): freezes every package-level variable of the named packages under tag.
+// Natively package variables cannot be enumerated; harnesses additionally Freeze the exported ones.
+func FreezeGlobals(tag string, pkgs ...string) {}
+
 // NoOrderLemma (intrinsic): explore every map order also inside the functions covered by an order lemma
 // (used by the lemma harnesses themselves).
 func NoOrderLemma(on bool) {}
